@@ -269,8 +269,8 @@ def gen_plan(wl, fr, idx):
 class Model:
     """Holds only what the user set. Never looks at the object's dictionaries."""
 
-    def __init__(self, ctor):
-        self.s = ref.object_settings(ctor)
+    def __init__(self, ctor, kind='single'):
+        self.s = ref.object_settings_checked(ctor, kind)
         self.table = ('none',)          # ('none',) | ('unknown',) | ('known', df) ; group: nested
         self.gtables = None
 
@@ -718,7 +718,7 @@ def _run_group(plan, tape, res, hist, ctl, sim):
     from bycycle.objs import BycycleGroup
     res.fps = []
     res.methods_fit = set()
-    model = Model(plan['ctor'])
+    model = Model(plan['ctor'], 'group')
     obj = construct(BycycleGroup, plan['ctor'])
     cur = None          # (array, nested tables) after the last successful gfit
     edited_since_fit = False
